@@ -29,7 +29,7 @@ def main():
     os.makedirs(OUT, exist_ok=True)
     for prop in sorted(os.listdir(SEED)):
         w = os.path.join(SEED, prop)
-        for v in ("a", "b", "c"):
+        for v in os.environ.get("SEED_VARIANTS", "a b c").split():
             sid = f"{PREFIX}{prop}{v}"
             if only and sid not in only:
                 continue
@@ -38,7 +38,11 @@ def main():
                 continue
             sh("git checkout -- . ; rm -f tests/seed_demo.rs", w)
             notes = open(os.path.join(d, "notes.md")).read() if os.path.exists(os.path.join(d, "notes.md")) else ""
-            res = dict(id=sid, property=prop)
+            realprop = prop
+            if not re.match(r"C\d\d$", prop):
+                mm = re.findall(r"C\d\d", notes)
+                realprop = mm[0] if mm else prop
+            res = dict(id=sid, property=realprop)
             # without the change
             res["demo_without_std"], _ = demo(w, v, "")
             res["demo_without_none"], _ = demo(w, v, "--no-default-features") if os.path.exists(os.path.join(d, "demo.rs")) else (None, "")
@@ -67,7 +71,8 @@ def main():
                 for f in os.listdir(d):
                     shutil.copy(os.path.join(d, f), os.path.join(o, f))
                 first = notes.strip().split("\n")
-                meta = dict(id=sid, property=prop, source="independent sub-agent given only the property text and a scratch worktree",
+                allprops = sorted(set(re.findall(r"C\d\d", notes.split("\n\n")[0] + notes[:400]))) or [realprop]
+                meta = dict(id=sid, property=realprop, properties_named_in_notes=allprops, source=os.environ.get("SEED_SOURCE", "") or"independent sub-agent given only the property text and a scratch worktree",
                             what=" ".join(l.strip() for l in first[:6])[:900],
                             needs_to_manifest=(re.search(r"(?is)needs[^\n]*manifest[^\n]*:?(.*?)(\n\n|\ncommands|\Z)", notes) or [None, ""])[1].strip()[:600],
                             manifests_in_configurations=res["manifests_in"],
@@ -75,7 +80,7 @@ def main():
                                               applies=res["applies"], pinned_59_tests_pass_with_change=res["pinned_tests_pass"],
                                               builds_in_3_configurations=res["builds_3_configs"],
                                               demo_passes_without_change=True, demo_fails_with_change=True),
-                            checks_to_run=[prop])
+                            checks_to_run=[realprop])
                 json.dump(meta, open(os.path.join(o, "meta.json"), "w"), indent=1)
 
 if __name__ == "__main__":
